@@ -225,6 +225,10 @@ pub fn boundary_scenarios(cfg: &AlphaCfg, depth: usize, thorough: bool) -> Vec<S
     m.pre = cross(829_998);
     m.pre.push(Action::Jump(949_998));
     v.push(m);
+    // the subsidy runs out: 2^20 >> 20 = 1 microSYM is the last non-zero reward (blocks 20,950,000 ..), 0 from 21,950,000 on
+    let mut f = sc("custom02-subsidy-runs-out-21950000", NetID::Custom02, 0, cfg.clone(), depth.min(5));
+    f.pre = vec![Action::Jump(21_949_998)];
+    v.push(f);
     if thorough {
         let mut m = sc("mainnet-deposit-rule-978392", NetID::Mainnet, 0, cfg.clone(), depth);
         m.pre = cross(829_998);
